@@ -84,6 +84,17 @@ func Run(p *Plan, ch simsync.Chooser) *Outcome {
 			refs[c][i] = refT{canon, un}
 		}
 	}
+	var freshV *detsim.Violation
+	if p.FreshAt > 0 && p.FreshAt <= len(p.Clients[0]) {
+		cl := p.Clients[0][p.FreshAt-1]
+		want := refs[0][p.FreshAt-1]
+		got := orc.Fresh(cl)
+		out.Counters.Add("references_recomputed_in_a_fresh_os_process", 1)
+		if !SameResult(got, want.canon, true) && !strings.HasPrefix(want.canon, "panic:") {
+			freshV = &detsim.Violation{Class: "reference-unstable", Sub: "fresh-process",
+				Detail: fmt.Sprintf("%s alone in the long-lived oracle process returned %s, in a fresh OS process of its own %s", cl, clip(want.canon), clip(got))}
+		}
+	}
 	var cache *simCache
 	evictions := 0
 	if p.CacheKind != CacheDefault {
@@ -304,6 +315,9 @@ func Run(p *Plan, ch simsync.Chooser) *Outcome {
 				break
 			}
 		}
+	}
+	if out.V == nil && freshV != nil {
+		out.V = freshV
 	}
 	if out.V == nil && nrec > 0 {
 		// the reference must not have hidden state either: ask once more for a sample
